@@ -44,6 +44,7 @@ type frame struct {
 	body    *ast.BlockStmt
 	inline  bool
 	labels  map[string]ast.Stmt
+	localAllocs map[types.Object]bool
 }
 
 type Unit struct {
